@@ -3,6 +3,8 @@ package main
 // Calls: builtins, external models, contracts of callees, inlining; returns and ensures.
 
 import (
+	"os"
+	"strconv"
 	"fmt"
 	"go/token"
 	"go/types"
@@ -34,6 +36,11 @@ func (fr *Frame) execCall(st *State, c *ssa.CallCommon, res ssa.Value, pos token
 			fr.setResult(res, out)
 			return
 		}
+		if v.eng.isCallbackIface(c) {
+			v.smt.note("invoke " + c.Method.FullName() + ": application callback, assumed to write nothing of the repository's objects")
+			fr.freshResult(st, c, res)
+			return
+		}
 		if impls := v.eng.closedImpls(c); impls != nil {
 			ms := newModSet()
 			v.eng.callMods(c, ms, nil)
@@ -57,6 +64,36 @@ func (fr *Frame) execCall(st *State, c *ssa.CallCommon, res ssa.Value, pos token
 			return
 		}
 		fc := v.eng.contractOf(f)
+		if v.fc != nil && fr.top {
+			for _, n := range strings.Fields(v.fc.Opts["abstract"]) {
+				match := n == f.Name()
+				if i := strings.LastIndex(n, "."); i >= 0 && f.Signature.Recv() != nil {
+					if nt, ok := types.Unalias(deref(f.Signature.Recv().Type())).(*types.Named); ok {
+						match = nt.Obj().Name() == n[:i] && f.Name() == n[i+1:]
+					}
+				}
+				if match {
+					// opt abstract: this callee is summarised by its inferred frame only (result unconstrained)
+					ms := v.eng.modSetOf(f)
+					desc := ""
+					if os.Getenv("GOVC_DEBUG_MODS") != "" {
+						var ks []string
+						for k, ki := range ms.Keys {
+							if ki.FreshOnly {
+								k += "(fresh)"
+							}
+							ks = append(ks, k)
+						}
+						sort.Strings(ks)
+						desc = fmt.Sprintf(" all=%v keys=%v", ms.All, ks)
+					}
+					v.havocked = append(v.havocked, f.String()+" (opt abstract)"+desc)
+					v.havocKeys(st, ms)
+					fr.freshResult(st, c, res)
+					return
+				}
+			}
+		}
 		if fc != nil && !fc.Inline {
 			fr.applyContract(st, f, fc, c, args, res, pos)
 			return
@@ -382,12 +419,32 @@ func (fr *Frame) applyContract(st *State, f *ssa.Function, fc *FuncContract, c *
 		o.Group = rq.Group
 		v.smt.assertG(rq.Group, implies(st.reach, g))
 	}
+	// an `atomic <mutex>` operation takes the mutex of its receiver itself: the caller must not hold
+	// it (the callee is verified from "mutex free on entry" and proves "free again on return")
+	atomicKey, atomicRecv := "", ""
+	if fc.Atomic != "" && fc.Opts["returns_locked"] == "" && f.Signature.Recv() != nil && len(args) > 0 && args[0].Loc == nil {
+		rt := deref(f.Signature.Recv().Type())
+		if _, sT := namedStruct(rt); sT != nil && isRefStruct(rt) {
+			for i := 0; i < sT.NumFields(); i++ {
+				if sT.Field(i).Name() == fc.Atomic {
+					atomicKey = v.ghostKey("held!"+fieldKeyName(rt, sT, i), "(Array Int Bool)")
+					atomicRecv = args[0].T
+				}
+			}
+		}
+	}
+	if atomicKey != "" && !v.noMonitor() {
+		v.addObl(st, "monitor", fmt.Sprintf("free.%s.%s", fnShort(f), fc.Atomic), not(sel(v.heap(st, atomicKey), atomicRecv)), "the mutex an atomic operation takes is not held by the caller", fr.propsOf(), pos)
+	}
 	before := st.clone()
 	ms := v.eng.modSetOf(f)
 	if ms.All {
 		v.havocked = append(v.havocked, "contract call "+f.String()+" (ALL: "+strings.Join(ms.Why, "; ")+")")
 	}
 	v.havocKeys(st, ms)
+	if atomicKey != "" {
+		v.smt.assert(implies(st.reach, not(sel(v.heap(st, atomicKey), atomicRecv))))
+	}
 	// results
 	var results []Val
 	rs := f.Signature.Results()
@@ -610,6 +667,14 @@ func (v *FnVerifier) checkEnsures(fr *Frame, st *State, res []Val, pos token.Pos
 		if v.fc.Opts["returns_locked"] != "" {
 			continue
 		}
+		if rt := fr.fn.Signature.Recv(); rt != nil {
+			if _, sT := namedStruct(deref(rt.Type())); sT != nil {
+				// only the mutexes of the receiver's own type are indexed by the receiver
+				if !strings.HasPrefix(hk, "GH!held!"+strings.TrimSuffix(fieldKeyName(deref(rt.Type()), sT, 0), sT.Field(0).Name())) {
+					continue
+				}
+			}
+		}
 		base := v.entry
 		heldBefore := sel(v.heap(base, hk), recv)
 		v.addObl(st, "monitor", fmt.Sprintf("unlocked@ret%d", retNo), eq(sel(v.heap(st, hk), recv), heldBefore), "lock state on return equals lock state on entry", v.fc.Serves, pos)
@@ -677,8 +742,21 @@ func (fr *Frame) siteAssertsCall(st *State, c *ssa.CallCommon, args []Val, pos t
 	}
 	for _, as := range v.fc.Asserts {
 		w := strings.Fields(as.Site)
-		if len(w) != 2 || w[0] != "call" {
+		if !(len(w) == 2 || len(w) == 4 && w[2] == "loop") || w[0] != "call" {
 			continue
+		}
+		if len(w) == 4 {
+			// call F loop N: only the call sites inside loop N
+			n, err := strconv.Atoi(w[3])
+			inside := false
+			for _, li := range fr.loops {
+				if err == nil && li.ordinal == n && li.inLoop[fr.curBlock] {
+					inside = true
+				}
+			}
+			if !inside {
+				continue
+			}
 		}
 		want, field := w[1], ""
 		if i := strings.Index(want, "("); i >= 0 && strings.HasSuffix(want, ")") {
@@ -748,6 +826,7 @@ func (fr *Frame) siteAssertsCall(st *State, c *ssa.CallCommon, args []Val, pos t
 		o := v.addObl(st, "assert", fmt.Sprintf("%s#%d", as.Label, v.siteCount["assert."+as.Label]), g, as.Cl.Text, pickProps(as.Cl, v.fc.Serves), pos)
 		o.Extra = extra
 		o.Group = as.Cl.Group
+		v.siteCover(st, o)
 		v.assertHits[as.Label]++
 	}
 }
@@ -777,6 +856,7 @@ func (fr *Frame) siteAsserts(st *State, kind string, addr ssa.Value, args []Val,
 		o := v.addObl(st, "assert", fmt.Sprintf("%s#%d", as.Label, v.siteCount["assert."+as.Label]), g, as.Cl.Text, pickProps(as.Cl, v.fc.Serves), pos)
 		o.Extra = extra
 		o.Group = as.Cl.Group
+		v.siteCover(st, o)
 		v.assertHits[as.Label]++
 	}
 }
@@ -961,6 +1041,7 @@ func (fr *Frame) siteAssertsNamed(st *State, kind string, pos token.Pos) {
 		o := v.addObl(st, "assert", fmt.Sprintf("%s#%d", as.Label, v.siteCount["assert."+as.Label]), g, as.Cl.Text, pickProps(as.Cl, v.fc.Serves), pos)
 		o.Extra = extra
 		o.Group = as.Cl.Group
+		v.siteCover(st, o)
 		v.assertHits[as.Label]++
 	}
 }
